@@ -34,7 +34,17 @@ import (
 
 type netPort struct {
 	Conn int `json:"conn"`
-	Cap  int `json:"cap"`
+	Cap  int `json:"cap"` // incoming (and, when OutCap==0, outgoing) buffer capacity
+	// OutCap != 0: the port is built with messaging.NewPort(comp, Cap, OutCap,
+	// name) (public API; modeling.PortBuilder only builds symmetric ports).
+	OutCap int `json:"out_cap,omitempty"`
+}
+
+func (p netPort) outCap() int {
+	if p.OutCap != 0 {
+		return p.OutCap
+	}
+	return p.Cap
 }
 
 // netSend is a timer-driven burst: at time At put N messages for (DstA,DstP)
@@ -327,7 +337,8 @@ type netRec struct {
 
 	connOfHandler map[string]int
 	connOfPort    map[string]int
-	capOfPort     map[string]int
+	capOfPort     map[string]int // incoming capacity
+	outCapOfPort  map[string]int
 	conns         []*directconnection.Comp
 	lastTick      []tickRec
 	ticks         []int
@@ -484,7 +495,7 @@ func validNetCase(c netCase) error {
 			return fmt.Errorf("bad agent frequency %d", a.Freq)
 		}
 		for _, p := range a.Ports {
-			if p.Conn < 0 || p.Conn >= len(c.ConnFreq) || p.Cap < 1 {
+			if p.Conn < 0 || p.Conn >= len(c.ConnFreq) || p.Cap < 1 || p.OutCap < 0 {
 				return fmt.Errorf("bad port %+v", p)
 			}
 			nports[p.Conn]++
@@ -534,6 +545,7 @@ func runNet(c netCase, compensate bool) (run *netRun, ok bool, sig, msg string) 
 		connOfHandler:   map[string]int{},
 		connOfPort:      map[string]int{},
 		capOfPort:       map[string]int{},
+		outCapOfPort:    map[string]int{},
 		inOcc:           map[string]int{},
 		outOcc:          map[string]int{},
 		maxInOcc:        map[string]int{},
@@ -598,16 +610,24 @@ func runNet(c netCase, compensate bool) (run *netRun, ok bool, sig, msg string) 
 			for pi, p := range a.Ports {
 				pname := fmt.Sprintf("P%d", pi)
 				owner.DeclarePort(pname)
-				port := modeling.MakePortBuilder().
-					WithRegistrar(reg).
-					WithComponent(owner).
-					WithSpec(modeling.PortSpec{BufSize: p.Cap}).
-					Build(pname)
+				var port messaging.Port
+				if p.OutCap == 0 {
+					port = modeling.MakePortBuilder().
+						WithRegistrar(reg).
+						WithComponent(owner).
+						WithSpec(modeling.PortSpec{BufSize: p.Cap}).
+						Build(pname)
+				} else {
+					// what PortBuilder.Build does, with distinct capacities
+					port = messaging.NewPort(owner, p.Cap, p.OutCap, owner.Name()+"."+pname)
+					reg.RegisterPort(port)
+				}
 				owner.AssignPort(pname, port)
 				port.AcceptHook(ph)
 				rec.conns[p.Conn].PlugIn(port)
 				rec.connOfPort[port.Name()] = p.Conn
 				rec.capOfPort[port.Name()] = p.Cap
+				rec.outCapOfPort[port.Name()] = p.outCap()
 				run.byName[port.Name()] = port
 				ports = append(ports, port)
 			}
@@ -705,7 +725,7 @@ func (r *netRun) quiescenceProblems() []netProblem {
 			if len(r.states[ai].Queues[pi].Work) > 0 && p.CanSend() {
 				out = append(out, netProblem{"unsent-work:free-port-" + kindName(a.Kind), fmt.Sprintf(
 					"event queue empty at %d ps but %s agent %d still has %d unsent message(s) for %s whose outgoing buffer has room (%d/%d)",
-					r.endAt, kindName(a.Kind), ai, len(r.states[ai].Queues[pi].Work), p.Name(), p.NumOutgoing(), r.rec.capOfPort[p.Name()])})
+					r.endAt, kindName(a.Kind), ai, len(r.states[ai].Queues[pi].Work), p.Name(), p.NumOutgoing(), r.rec.outCapOfPort[p.Name()])})
 			}
 		}
 		if len(r.states[ai].Timed) > 0 {
